@@ -754,6 +754,7 @@ func cliFasta(c *fw.Ctx) {
 	}
 	defer os.RemoveAll(env.Root)
 	r := c.Rng
+	defer cliFormatPlumbing(c, env)
 	cmds := [][]string{{"clear"}, {"reverse"}, {"complement"}, {"select", "gene"}, {"sort"}, {"clear"}, {"pick", "1"}}
 	lens := []int{1, 69, 70, 71, 139, 140, 141, 210}
 	N := c.Pick(48, 600)
@@ -883,6 +884,95 @@ func cliFasta(c *fw.Ctx) {
 		}
 		if !same {
 			c.Violate("cli:fasta:second-pass", enc, clipS(want, 1500), clipS(string(res2.Stdout), 1500))
+		}
+	}
+}
+
+// cliFormatPlumbing: for every record-writing subcommand, -F decides the
+// format and -o only the destination: `-F fasta` on stdout is well-formed
+// FASTA, the same command with `-o name.ext` writes the same bytes to the file
+// whatever ext suggests, and `-F genbank -o name.fasta` writes what
+// `-F genbank` prints.
+func cliFormatPlumbing(c *fw.Ctx, env *cli.Env) {
+	r := c.Rng
+	cmds := [][]string{{"delete", "gene"}, {"delete", "-e", "3..5"}, {"extract", "gene"}, {"extract", "-v", "CDS"}, {"rotate", "gene"}, {"split", "gene"},
+		{"insert", "3", "@acgt"}, {"insert", "-e", "gene", "@acgt"}, {"define", "misc_feature", "1..2"}, {"search", "@acg"}, {"join"}, {"select", "-v", "CDS"}, {"pick", "1"}, {"sort", "-r"}}
+	N := c.Pick(42, 420)
+	for it := 0; it < N; it++ {
+		c.NextOwn()
+		seed := r.Int63()
+		if c.Replaying() && c.Seq() != c.ReplaySeq {
+			continue
+		}
+		rr := rand.New(rand.NewSource(seed))
+		cmd := cmds[it%len(cmds)]
+		var stdin bytes.Buffer
+		for i, k := 0, 1+rr.Intn(2); i < k; i++ {
+			gb, _ := cliRecord(rr, []int{20, 69, 70, 71, 140, 150}[rr.Intn(6)], true)
+			gb.Fields.Version = fmt.Sprintf("PLB%d.1", i)
+			stdin.WriteString(gb.String())
+		}
+		enc := fmt.Sprintf("cli: gts %s with -F / -o variants, seed=%d", strings.Join(cmd, " "), seed)
+		c.Begin(enc)
+		run := func(extra ...string) cli.Result {
+			return env.Run(append(append(append([]string{}, cmd...), extra...), "--no-cache"), stdin.Bytes(), nil, 60*time.Second)
+		}
+		fa := run("-F", "fasta")
+		if fa.TimedOut || fa.Exit != 0 {
+			c.Skip("gts " + cmd[0] + " does not process this record (judged elsewhere)")
+			c.Count(enc, false)
+			continue
+		}
+		c.Count(enc, true)
+		c.Bucket("cli:plumbing " + cmd[0])
+		text := string(fa.Stdout)
+		if len(text) > 0 {
+			got, err, bad := c17read(text, 64)
+			ok := err == nil && bad == "" && text[0] == '>'
+			rest := text
+			for i := 0; ok && i < len(got); i++ {
+				end := strings.Index(rest[1:], "\n>")
+				piece := rest
+				if end >= 0 {
+					piece, rest = rest[:end+2], rest[end+2:]
+				} else {
+					rest = ""
+				}
+				ok, _ = model.FastaLayoutOK(got[i].desc, got[i].data, piece)
+			}
+			if !ok || rest != "" {
+				c.Violate("cli:plumbing:-F-fasta-is-not-fasta:"+cmd[0], enc, "well-formed FASTA records", clipS(text, 1500))
+				continue
+			}
+		}
+		ext := []string{".gb", ".genbank", ".fasta", ".txt", ""}[rr.Intn(5)]
+		outp := env.File("plumb" + ext)
+		os.MkdirAll(filepath.Dir(outp), 0755)
+		for _, f := range [][]string{{"-F", "fasta"}, {"-F", "genbank"}} {
+			ref := fa
+			if f[1] == "genbank" {
+				ref = run(f...)
+				if ref.TimedOut || ref.Exit != 0 {
+					c.Violate("cli:plumbing:-F-genbank-fails:"+cmd[0], enc, "exit 0", fmt.Sprintf("exit %d %s", ref.Exit, clipS(string(ref.Stderr), 300)))
+					break
+				}
+				if len(ref.Stdout) > 0 && !bytes.HasPrefix(ref.Stdout, []byte("LOCUS")) {
+					c.Violate("cli:plumbing:-F-genbank-is-not-genbank:"+cmd[0], enc, "GenBank text", string(clipB(ref.Stdout, 300)))
+					break
+				}
+			}
+			os.Remove(outp)
+			ro := run(append(append([]string{}, f...), "-o", outp)...)
+			ob, rerr := os.ReadFile(outp)
+			os.Remove(outp)
+			if ro.TimedOut || ro.Exit != 0 || rerr != nil || !bytes.Equal(ob, ref.Stdout) {
+				c.Violate("cli:plumbing:-o-file-differs-from-stdout:"+cmd[0], enc+fmt.Sprintf(" (%s -o plumb%s)", strings.Join(f, " "), ext), string(clipB(ref.Stdout, 600)), fmt.Sprintf("exit %d err=%v: %s", ro.Exit, rerr, clipB(ob, 600)))
+				break
+			}
+			if len(ro.Stdout) != 0 {
+				c.Violate("cli:plumbing:-o-also-prints:"+cmd[0], enc, "nothing on stdout", string(clipB(ro.Stdout, 300)))
+				break
+			}
 		}
 	}
 }
